@@ -8,6 +8,7 @@ def dispatch (j : Json) : R Json := do
   match kind with
   | "journal" => DJournal.handle j
   | "hash" => DHash.handle j
+  | "dirsrc" => DJournal.handleDir j
   | k => throw s!"unknown kind {k}"
 
 partial def loop (hin hout : IO.FS.Stream) : IO Unit := do
